@@ -90,7 +90,16 @@ type conn interface {
 
 func scenario(arg string) *vx.Scenario {
 	p := parse(arg)
-	return &vx.Scenario{Name: "transport:" + arg, Cfg: vrt.Config{MaxSteps: 400000, MaxTime: 10 * time.Minute, Settle: 30 * time.Second}, Run: func() {
+	return &vx.Scenario{Name: "transport:" + arg, Cfg: vrt.Config{MaxSteps: 400000, MaxTime: 10 * time.Minute, Settle: 30 * time.Second}, Judge: func(r *vrt.Result) []string {
+		ps := vx.DefaultJudge(r)
+		// every program ends within seconds of virtual time (the longest wait is a 6 s accept
+		// timeout): still running at the 10-minute cap means a call never returned while some
+		// periodic timer kept the clock moving
+		if r.Horizon != "" {
+			ps = append(ps, "never returned: "+r.Horizon)
+		}
+		return ps
+	}, Run: func() {
 		nw := vnet.New()
 		sa := &net.UDPAddr{IP: net.IPv4(10, 0, 0, 1), Port: 77}
 		ca := &net.UDPAddr{IP: net.IPv4(10, 0, 0, 2), Port: 4000}
@@ -180,6 +189,16 @@ func scenario(arg string) *vx.Scenario {
 				}
 			}
 		}
+		// A blocking Read with nobody left to release it is legitimate (the peer is not told
+		// about every close): after 60 virtual seconds a reaper closes both ends, and only what
+		// is still blocked after that never returns.
+		bg.Add(1)
+		vrt.Go(func() {
+			defer bg.Done()
+			vrt.Sleep(60 * time.Second)
+			cl.Close()
+			srv.Close()
+		})
 		var wg vsync.WaitGroup
 		for ti, ops := range p.Client {
 			ti, ops := ti, ops
@@ -259,7 +278,7 @@ func scenario(arg string) *vx.Scenario {
 }
 
 func classify(w string) string {
-	for _, k := range []string{"deadlock", "panic", "leaked", "different results", "instead of it", "on the closed client", "set-up"} {
+	for _, k := range []string{"deadlock", "never returned", "panic", "leaked", "different results", "instead of it", "on the closed client", "set-up"} {
 		if strings.Contains(w, k) {
 			return strings.ReplaceAll(k, " ", "-")
 		}
@@ -289,7 +308,9 @@ func programs(thorough bool) (all, core []prog) {
 		prog{Pre: "queued", Client: []string{"rr", "c"}},
 		prog{Pre: "queued", Client: []string{"r", "c"}},
 		prog{Pre: "queued", Client: []string{"c", "sr"}})
-	core = []prog{all[0], all[1], all[3], {Pre: "open", Client: []string{"r", "c"}}, {Pre: "open", Handle: []string{"r", "c"}}, {Pre: "queued", Client: []string{"r", "c"}}, {Pre: "open", Client: []string{"dr", "z"}}}
+	// handshake racing close gets the deepest bound: the interesting windows are a few steps wide
+	core = []prog{{Client: []string{"h", "c"}}, {Client: []string{"h", "c"}, Hidden: true}, {Client: []string{"h", "sc"}, Hidden: true},
+		{Pre: "open", Client: []string{"r", "c"}}, {Pre: "open", Handle: []string{"r", "c"}}, {Pre: "queued", Client: []string{"r", "c"}}, {Pre: "open", Client: []string{"dr", "z"}}}
 	return
 }
 
@@ -302,6 +323,18 @@ func main() {
 		return
 	}
 	r := vk.New("C17", "model_checking")
+	if a := os.Getenv("VERIF_EXPLORE"); a != "" {
+		e := &vx.Explorer{Bounds: vx.Bounds{2, 2, 2, 1, 0}, Total: 2, MaxExec: 1000000}
+		st := e.ExploreLocal(scenario(a), nil)
+		fmt.Printf("explored %d executions, outcomes:\n", st.Executions)
+		for o, n := range st.Outcomes {
+			fmt.Printf("  %6d  %s\n", n, o)
+		}
+		for _, pr := range st.Problems {
+			fmt.Println("  PROBLEM:", pr.What)
+		}
+		r.Finish()
+	}
 	if a := os.Getenv("VERIF_PROG"); a != "" {
 		sc := scenario(a)
 		sc.Cfg.Trace = os.Getenv("VERIF_TRACE") != ""
@@ -341,7 +374,7 @@ func main() {
 		total  int
 		window int
 	}
-	phases := []phase{{"all programs, one deviation of any kind", all, vx.Bounds{1, 1, 1, 1, 0}, 1, 0}, {"core programs, two deviations among the first 150 choice points", core, vx.Bounds{2, 2, 2, 1, 0}, 2, 150}}
+	phases := []phase{{"all programs, one deviation of any kind", all, vx.Bounds{1, 1, 1, 1, 0}, 1, 0}, {"core programs, two deviations anywhere", core, vx.Bounds{2, 2, 2, 1, 0}, 2, 0}}
 	if r.Thorough() {
 		phases = []phase{{"all programs, two deviations among the first 400 choice points", all, vx.Bounds{2, 2, 2, 1, 0}, 2, 400}, {"core programs, three deviations among the first 80 choice points", core, vx.Bounds{3, 3, 3, 1, 0}, 3, 80}}
 	}
@@ -391,6 +424,6 @@ func main() {
 	r.Graph(int64(traces), points, execs)
 	r.Set("transport_programs", len(all))
 	r.Set("transport_distinct_outcomes", outcomes)
-	r.SetRule("transport part: a real transport client and server (packages transport and common rewritten for the deterministic scheduler and virtual clock) over an in-memory datagram network; programs of 1..3 client threads and 0..2 server-handle threads over {Handshake, Close, Read, Read with a 50 ms deadline, Write, SetReadDeadline(+30 ms / zero)}, optionally a thread closing the server; starting from a fresh client (discoverable and hidden mode), from an open session, or from an open session with one message already queued at the client; every schedule within the phase's deviation bounds. Oracles: no deadlock, no panic, no thread left 30 virtual seconds after everything was closed (every call returns), Close reports the same result to every caller of the same object (including a later call), Read/Write on a closed client fail, a message queued before any Close began is returned by the first Read.")
+	r.SetRule("transport part: a real transport client and server (packages transport and common rewritten for the deterministic scheduler and virtual clock) over an in-memory datagram network; programs of 1..3 client threads and 0..2 server-handle threads over {Handshake, Close, Read, Read with a 50 ms deadline, Write, SetReadDeadline(+30 ms / zero)}, optionally a thread closing the server; a reaper closes both ends after 60 virtual seconds so that reads nobody else releases end; starting from a fresh client (discoverable and hidden mode), from an open session, or from an open session with one message already queued at the client; every schedule within the phase's deviation bounds. Oracles: no deadlock, nothing still running at 10 virtual minutes, no panic, no thread left 30 virtual seconds after everything was closed (every call returns), Close reports the same result to every caller of the same object (including a later call), Read/Write on a closed client fail, a message queued before any Close began is returned by the first Read.")
 	r.Finish()
 }
